@@ -271,6 +271,9 @@ def gen_wrapper(rng, desc, widen):
         n = rng.weighted([(1, 1), (2, 3), (3, 3), (4, 2), (5, 1)] + ([(7, 2)] if widen else []))
         if desc["dict"] and rng.chance(0.5):
             order = [[k, rng.choice(["auto", "first", "last"])] for k in desc["subs"]]
+            # the mapping is handed over in an arbitrary insertion order (gymnasium's Dict space sorts its keys; a user's
+            # mapping need not be written in that order) — seeded change C17-g
+            rng.shuffle(order)
         else:
             order = rng.weighted([("auto", 3), ("first", 1), ("last", 1)])
         return {"w": "frameStack", "n": n, "order": order}
